@@ -42,6 +42,7 @@ def setup(ctx):
         "expected decision is computed from the configuration by the harness (first non-allow component), never by calling the components",
         "scripted deny responses are well-formed; a raising component may be answered with any well-formed non-2x response",
     ]
+    ctx.require("monitor", "connections_with_proxy_handler", 300)
     ctx.require("monitor", "connections", 500)
     ctx.require("monitor", "mw_calls_observed", 500)
     ctx.require("monitor", "rejected_connections", 150)
@@ -236,6 +237,18 @@ def run_conn(ctx, chain_specs, req, label, valid, schedule, has_cert, handler_ki
                     return await real_up.handle_upload(request)
 
             handler, upload = h, U()
+        elif handler_kind == "proxy":
+            # a reverse-proxy handler behind the chain: for a refused request no upstream may be contacted
+            # (no socket.connect / getaddrinfo audit event, no entry into the handler)
+            from nauyaca.server.proxy import ProxyHandler
+
+            px = ProxyHandler("gemini://127.0.0.1:9", timeout=2)
+
+            def h(request):
+                spy_h(request)
+                return px.handle(request)
+
+            handler, upload = h, spy_u
         else:
             handler, upload = spy_h, spy_u
         # state carried from earlier connections (caches, counters) must not change this connection's fate:
@@ -328,13 +341,16 @@ def run_conn(ctx, chain_specs, req, label, valid, schedule, has_cert, handler_ki
     kinds = [(e["kind"], e["data"]) for e in log if e["kind"] in ("mw_start", "mw_end", "handler_start", "upload_start")]
     fs = [e for e in events if e["ev"] != "os.listdir" and under(e.get("path"), [docroot, updir]) and (e["ev"] != "open" or True)]
     fs_w = [e for e in fs if e["ev"] != "open" or e.get("write") or True]
+    net = [e for e in events if e["ev"] in ("socket.connect", "socket.getaddrinfo", "socket.gethostbyname", "socket.sendto")]
+    if handler_kind == "proxy":
+        ctx.count("monitor", "connections_with_proxy_handler")
     tree_changed = fstree.diff(before, after)
     proto = "titan" if is_titan else "gemini"
     chain_sig = "+".join(s["kind"] + ":" + str(s.get("outcome", s.get("deny", s.get("allow_fp", s.get("capacity"))))) + ("~slow" if s.get("delay") else "") for s in chain_specs)
     wit = {"level": level, "backend": backend, "request": req, "chain": chain_specs, "schedule": schedule, "client_cert": has_cert,
            "handler_kind": handler_kind, "expected": exp, "decider": decider,
            "observed": {"stream": stream[:120], "handler_entries": n_h, "upload_entries": n_u, "events": kinds[:20],
-                        "fs_events": [(e["ev"], e.get("path")) for e in fs][:10], "tree_diff": [(os.fsdecode(p), c) for p, c, _, _ in tree_changed][:5]}}
+                        "fs_events": [(e["ev"], e.get("path")) for e in fs][:10], "socket_events": [(e["ev"], str(e.get("address") or e.get("host"))) for e in events if e["ev"].startswith("socket.")][:6], "tree_diff": [(os.fsdecode(p), c) for p, c, _, _ in tree_changed][:5]}}
     sfx = f":proto={proto}" + (f":backend={backend}" if backend else "")
     comp_kind = chain_specs[decider]["kind"] if decider is not None else "none"
 
@@ -346,9 +362,9 @@ def run_conn(ctx, chain_specs, req, label, valid, schedule, has_cert, handler_ki
 
     if exp != "allow":
         ctx.count("monitor", "rejected_connections")
-        if n_h or n_u or fs or tree_changed:
+        if n_h or n_u or fs or tree_changed or net:
             clause = "handler-after-deny" if exp == "deny" else "handler-after-raise"
-            what = f"chain {exp}s at component {decider} ({comp_kind}) but handler entries={n_h}, upload entries={n_u}, fs events={len(fs)}, tree changes={len(tree_changed)}"
+            what = f"chain {exp}s at component {decider} ({comp_kind}) but handler entries={n_h}, upload entries={n_u}, fs events={len(fs)}, tree changes={len(tree_changed)}, upstream socket events={len(net)}"
             if mw_calls == 0:
                 clause = "chain-not-consulted"
                 what = "the chain was never consulted: " + what
@@ -427,7 +443,9 @@ def run(ctx):
         all_chains = chains(ctx, rng)
         for ci, chain in enumerate(all_chains):
             for req, label, valid in REQUESTS:
-                combos = [(s, c, hk) for s in SCHEDULES for c in (False, True) for hk in ("spy", "real")]
+                # (the proxy handler only where the chain can refuse: an admitted request would really dial out)
+                can_refuse = any((sp["kind"] == "spy" and sp["outcome"] != "allow") or (sp["kind"] == "acl" and sp["deny"]) or sp["kind"] == "cert" or (sp["kind"] == "rate" and sp["capacity"] == 0) for sp in chain)
+                combos = [(s, c, hk) for s in SCHEDULES for c in (False, True) for hk in (("spy", "real", "proxy") if can_refuse and (ci % 3 == 0 or not ctx.quick()) else ("spy", "real"))]
                 if ctx.quick():
                     combos = [combos[(ci + j * 5) % len(combos)] for j in range(3)]
                 for schedule, has_cert, hk in combos:
